@@ -13,6 +13,7 @@ from pathlib import Path
 from vlib import diffexec
 
 # tolerances (relative, absolute) per printed tag; see tpgen: stored reals are bounded by 8, subexpressions by 64
+RUN_TIMEOUT = 180
 TOL = {'d': (1e-11, 1e-10), 'f': (1e-4, 1e-3)}
 
 
@@ -177,7 +178,7 @@ def run_pair(oexe, nexe, case, counters, cache=None):
     cache = {} if cache is None else cache
     for q, sin in enumerate(case.stdins):
         if q not in cache:
-            ro = diffexec.run(oexe, stdin=sin)
+            ro = diffexec.run(oexe, stdin=sin, timeout=RUN_TIMEOUT)
             counters['program_runs'] = counters.get('program_runs', 0) + 1
             if ro['rc'] != 0 or ro['san']:
                 return 'orig_bad', f"input {q}: rc={ro['rc']} {ro['san'][:2]} {ro['err'][-300:]}"
@@ -186,7 +187,7 @@ def run_pair(oexe, nexe, case, counters, cache=None):
             except ValueError as e:
                 return 'orig_bad', f'unparsable original output: {e}'
         a = cache[q]
-        rn = diffexec.run(nexe, stdin=sin)
+        rn = diffexec.run(nexe, stdin=sin, timeout=RUN_TIMEOUT)
         counters['program_runs'] = counters.get('program_runs', 0) + 1
         if rn['rc'] == -999:
             return 'timeout', f'input {q}: translated program timed out'
